@@ -247,6 +247,7 @@ class Run(object):
                 fz = {parse_event(e)[0]: MSGS[parse_event(e)[0]][0].hex() for e in v['replay']['events'] if parse_event(e)[0].startswith('FZ')}
                 if fz:
                     v['replay'].setdefault('fuzz', fz)
+                    v['replay'].setdefault('fuzz_meta', {k: MSGS[k][1] for k in fz if MSGS[k][1].get('kind') != 'FUZZ'})
                 v.pop('at_seq', None)
                 out.append(v)
         return out
@@ -291,13 +292,43 @@ def fuzz_alphabet(rng, n):
     return names
 
 
-def register_fuzz(d):
+def fuzz_alphabet_typed(rng, n):
+    """like fuzz_alphabet, but only message kinds the RFC 4271 profile has a row for: UPDATE (>= 23 octets), NOTIFICATION
+    (>= 21), ROUTE-REFRESH (>= 23) with mutated bodies; the event carries the kind the profile needs"""
+    from . import corpus, mutate
+    msgs = [(t, b) for t, b in corpus.messages() if t in (2, 3, 5)]
+    names = []
+    j = 0
+    while len(names) < n and j < 20 * n:
+        j += 1
+        t, b = rng.choice(msgs)
+        b = mutate.random_mutation(b, rng)[:4077]
+        if t == 2 and len(b) >= 4:
+            meta = dict(kind='UPDH')
+        elif t == 3 and len(b) >= 2:
+            meta = dict(kind='NOTI', code=b[0], sub=b[1])
+        elif t == 5 and len(b) >= 4:
+            meta = dict(kind='RR')
+        else:
+            continue
+        name = 'FZ%d' % len(names)
+        MSGS[name] = (frame(t, b), meta)
+        names.append(name)
+    return names
+
+
+def register_fuzz(d, metas=None):
+    for k, m in (metas or {}).items():
+        if k in (d or {}):
+            MSGS[k] = (bytes.fromhex(d[k]), m)
+    if metas:
+        d = {k: v for k, v in d.items() if k not in metas}
     for k, hx in (d or {}).items():
         MSGS[k] = (bytes.fromhex(hx), dict(kind='FUZZ'))
 
 
-def run_seq(cfg, seq, monitor_classes, fuzz=None):
-    register_fuzz(fuzz)
+def run_seq(cfg, seq, monitor_classes, fuzz=None, fuzz_meta=None):
+    register_fuzz(fuzz, fuzz_meta)
     r = Run(cfg, monitor_classes)
     for ev in seq:
         r.step(ev)
